@@ -4,9 +4,9 @@ import os, sys
 os.environ.setdefault("NUMBA_DISABLE_JIT", "1")
 sys.path.insert(0, '/repo' + "/src"); sys.path.insert(0, '/verif')
 from fractions import Fraction
-import harness.C31 as H
+import harness.C45 as H
 try:
-    r = H.replay_collection({}, **{'qed': True, 'nfs': [3, 4, 5, 6]})
+    r = H.replay_build({'mu0': Fraction(2, 1), 'mu1': Fraction(3, 2), 't1': Fraction(2, 1), 't0': Fraction(1, 1), 'x1': Fraction(2, 1), 'x0': Fraction(1, 1)}, **{'nfs': [5, 5]})
 except Exception:
     import traceback; traceback.print_exc(); sys.exit(2)
 print(r)
